@@ -111,3 +111,42 @@ func Harness_C12_tcp() {
 	}
 	verif_Cover("C12.tcp.done")
 }
+
+// Datagrams at the buffer-size boundaries of the relay (32 KiB pool buffers, 64 KiB read
+// buffer, the 16-bit length prefix): a large datagram followed by a small one crosses the
+// relay intact in each direction. Four bytes of the large datagram are symbolic.
+func Harness_C12_udp_large() {
+	n := []int{1472, 32767, 32768, 32769, 65507, 65535}[verif_Choose(6)]
+	big := make([]byte, n)
+	for i := range big {
+		big[i] = byte(i*5 + 1)
+	}
+	big[0], big[1], big[n-2], big[n-1] = verif_Byte(), verif_Byte(), verif_Byte(), verif_Byte()
+	small := []byte{verif_Byte(), 0x5A}
+	if verif_Bool() {
+		// UDP -> tunnel
+		udp := &verifDgramConn{In: [][]byte{big, small}}
+		out := &verifSink{}
+		tunnel := &verifConn{In: &verifReader{}, Out: out}
+		UDP(udp, tunnel, nil)
+		want := append([]byte{byte(n >> 8), byte(n)}, big...)
+		want = append(want, 0, 2)
+		want = append(want, small...)
+		verif_Assert("C12.large.to_tunnel.length", len(out.Buf) == len(want))
+		verif_Assert("C12.large.to_tunnel.stream", verif_BytesEq(out.Buf, want))
+		verif_Cover("C12.large.to_tunnel")
+	} else {
+		// tunnel -> UDP, the stream arriving in two pieces cut inside the large record
+		stream := append([]byte{byte(n >> 8), byte(n)}, big...)
+		stream = append(stream, 0, 2)
+		stream = append(stream, small...)
+		udp := &verifDgramConn{ReadErr: c12ErrTunnel}
+		tunnel := &verifConn{In: &verifReader{Data: stream, Cuts: 1}, Out: &verifSink{}}
+		UDP(udp, tunnel, nil)
+		verif_Assert("C12.large.to_udp.count", len(udp.Out) == 2)
+		verif_Assert("C12.large.to_udp.big", verif_BytesEq(udp.Out[0], big))
+		verif_Assert("C12.large.to_udp.small", verif_BytesEq(udp.Out[1], small))
+		verif_Cover("C12.large.to_udp")
+	}
+	verif_Cover("C12.large.done")
+}
